@@ -161,7 +161,7 @@ def run(ctx, replay=None):
                         break
             # ---- diagonal(idx): condensed sub-matrix
             try:
-                idx = np.array(sorted(rng.sample(range(npts), min(npts, rng.randint(2, 6)))))
+                idx = np.array(rng.sample(range(npts), min(npts, rng.randint(2, 6))))          # in the caller's order (not ascending)
                 cond = np.asarray(ms.diagonal(idx), float)
                 k = 0
                 for a in range(len(idx)):
